@@ -559,6 +559,123 @@ def fromiso_probe():
     raise Unsupported("fromisoformat reads sub-second offsets as %r" % (got,))
 
 
+# ------------------------------------------------------------------------------------------ construction forms
+# (shared with the check)  Every way to BUILD a timestamp with a datetime class C other than C(<one argument>):
+# run once with the field type and once with the standard class; the field type's value must be the standard value
+# with "naive means UTC" applied.
+
+def construction_forms(C, wall, tz, fold, base):
+    """-> [(name, thunk)].  `base` is the value (wall, tz, fold) as an instance of C (for the instance methods)."""
+    td = _pydt.timedelta
+    y, m, d, h, mi, sc, us = wall
+    date, naive_time = _pydt.date(y, m, d), _pydt.time(h, mi, sc, us, fold=fold)
+    forms = []
+    if tz is None:
+        forms.append(("pos7", lambda: C(*wall)))
+        forms.append(("pos3_kw_rest", lambda: C(y, m, d, hour=h, minute=mi, second=sc, microsecond=us)))
+    forms += [
+        ("pos8", lambda: C(*wall, tz)),
+        ("kw_tzinfo", lambda: C(*wall, tzinfo=tz, fold=fold)),
+        ("all_kw", lambda: C(year=y, month=m, day=d, hour=h, minute=mi, second=sc, microsecond=us, tzinfo=tz, fold=fold)),
+        ("combine", lambda: C.combine(date, _pydt.time(h, mi, sc, us, tzinfo=tz, fold=fold))),
+        ("combine_tzarg", lambda: C.combine(date, naive_time, tz)),
+        ("fromisoformat", lambda: C.fromisoformat(_pydt.datetime(*wall, tzinfo=tz, fold=fold).isoformat())),
+        ("replace_tzinfo_none", lambda: base.replace(tzinfo=None)),
+        ("replace_tzinfo_utc", lambda: base.replace(tzinfo=_pydt.timezone.utc)),
+        ("replace_tzinfo_offset", lambda: base.replace(tzinfo=_pydt.timezone(td(hours=-7)))),
+        ("replace_field", lambda: base.replace(microsecond=(us + 1) % 1000000)),
+        ("add_zero", lambda: base + td(0)),
+        ("sub_microsecond", lambda: base - td(microseconds=1)),
+    ]
+    if tz is None or isinstance(tz, _pydt.timezone):
+        text = _pydt.datetime(*wall, tzinfo=tz).isoformat(timespec="microseconds")
+        fmt = "%Y-%m-%dT%H:%M:%S.%f" + ("%z" if tz is not None else "")
+        forms.append(("strptime", lambda: C.strptime(text, fmt)))
+    if tz is not None:
+        forms.append(("astimezone", lambda: base.astimezone(_pydt.timezone(td(hours=5, minutes=30)))))
+    if (h, mi, sc, us) == (0, 0, 0, 0) and tz is None:
+        forms.append(("fromordinal", lambda: C.fromordinal(date.toordinal())))
+    return forms
+
+
+def epoch_forms(C, x):
+    import warnings
+    td = _pydt.timedelta
+
+    def quiet(f):
+        def g():
+            with warnings.catch_warnings():
+                warnings.simplefilter("ignore")
+                return f()
+        return g
+    return [("fromtimestamp_local", lambda: C.fromtimestamp(x)),
+            ("fromtimestamp_utc", lambda: C.fromtimestamp(x, _pydt.timezone.utc)),
+            ("fromtimestamp_offset", lambda: C.fromtimestamp(x, _pydt.timezone(td(hours=-3, minutes=-30)))),
+            ("fromtimestamp_tzkw", lambda: C.fromtimestamp(x, tz=_pydt.timezone(td(seconds=1)))),
+            ("utcfromtimestamp", quiet(lambda: C.utcfromtimestamp(x)))]
+
+
+def now_forms(C):
+    import warnings
+
+    def quiet(f):
+        def g():
+            with warnings.catch_warnings():
+                warnings.simplefilter("ignore")
+                return f()
+        return g
+    return [("now", C.now), ("today", C.today), ("utcnow", quiet(C.utcnow)), ("now_utc", lambda: C.now(_pydt.timezone.utc)),
+            ("now_offset", lambda: C.now(_pydt.timezone(_pydt.timedelta(hours=9))))]
+
+
+class _PlainSub(_pydt.datetime):
+    """A datetime subclass that adds nothing: the reference for what the interpreter's constructors, classmethods and
+    instance methods give for a SUBCLASS (e.g. CPython 3.12's combine() does not pass fold on to a subclass) - the
+    field type must give that value with `naive means UTC` applied, nothing else."""
+
+
+def run_forms(wall, tz, fold):
+    """-> [(name, field-type value or ('EXC', text), expected observation)]; forms the reference class refuses are skipped"""
+    import flow.record.fieldtypes as ft
+    std_base = _PlainSub(*wall, tzinfo=tz, fold=fold)
+    ft_base = ft.datetime(_pydt.datetime(*wall, tzinfo=tz, fold=fold))
+    out = []
+    std = dict(construction_forms(_PlainSub, wall, tz, fold, std_base))
+    for name, thunk in construction_forms(ft.datetime, wall, tz, fold, ft_base):
+        try:
+            r0 = std[name]()
+            o0 = _obs(r0)
+        except Exception:  # noqa
+            continue
+        want = o0[:7] + (0 if o0[7] is None else o0[7],)
+        try:
+            got = thunk()
+        except Exception as e:  # noqa
+            got = ("EXC", "%s: %s" % (type(e).__name__, e))
+        out.append((name, got, want))
+    return out
+
+
+def run_epoch_forms(x):
+    import flow.record.fieldtypes as ft
+    out = []
+    std = dict(epoch_forms(_PlainSub, x))
+    for name, thunk in epoch_forms(ft.datetime, x):
+        try:
+            o0 = _obs(std[name]())
+        except Exception:  # noqa
+            continue
+        want = o0[:7] + (0 if o0[7] is None else o0[7],)
+        try:
+            got = thunk()
+        except Exception as e:  # noqa
+            got = ("EXC", "%s: %s" % (type(e).__name__, e))
+        out.append((name, got, want))
+    return out
+
+
+KNOWN_BYPASS_FORM = "replace_tzinfo_none"
+
 # ------------------------------------------------------------------------------------------ OBSERVED facts
 # Each fact below is derived from what the real functions DO on purpose-built probes.  The ast recognisers above are
 # kept as cross-checks only: recognised-and-contradicting -> Unsupported; not recognised -> a note in the generated file.
@@ -772,10 +889,42 @@ def observe_new():
             raise Unsupported("zoneinfo gives one offset for both folds of 2021-10-31 02:30 Europe/Amsterdam")
         if ft.datetime(amb).utcoffset() != amb.utcoffset():
             keeps["fold"] = False
-        # field-wise construction (what unpacking a 7-tuple uses)
+        # field-wise construction (what unpacking a 7-tuple uses) and every other way to build a value of the field
+        # type: positional with 7 / 8 arguments, tzinfo keyword (None, UTC, offsets), combine, strptime, fromisoformat,
+        # replace, arithmetic, fromtimestamp with and without tz, utcfromtimestamp, now
         fw = ft.datetime(2021, 10, 31, 2, 30, 0, 5)
         if _obs(fw) != (2021, 10, 31, 2, 30, 0, 5, 0):
             keeps["naive_utc"] = False
+        bypass = None
+        tzs = _probe_tzinfos()
+        for w in _PROBE_WALLS + [(2021, 7, 29, 0, 0, 0, 0)]:
+            for tz in [None] + tzs["KEqUTC"][:1] + tzs["KOther"]:
+                for fold in (0, 1):
+                    for name, got, want in run_forms(w, tz, fold):
+                        naive = isinstance(got, _pydt.datetime) and got.tzinfo is None
+                        if name == KNOWN_BYPASS_FORM:
+                            b = type(got) is ft.datetime and naive
+                            if bypass is None:
+                                bypass = b
+                            elif bypass != b:
+                                raise Unsupported("replace(tzinfo=None) sometimes calls the constructor and sometimes not")
+                            continue
+                        if not isinstance(got, _pydt.datetime) or (type(got) is ft.datetime and _obs(got) != want) or \
+                                (naive and type(got) is ft.datetime):
+                            keeps["naive_utc"] = False
+                            keeps.setdefault("first_bad", "%s%r tz=%r -> %r" % (name, w, tz, got))
+        for x in (0, 1.5, -1, 1700000000):
+            for name, got, want in run_epoch_forms(x):
+                if not isinstance(got, _pydt.datetime) or (type(got) is ft.datetime and _obs(got) != want):
+                    keeps["naive_utc"] = False
+                    keeps.setdefault("first_bad", "%s(%r) -> %r" % (name, x, got))
+        for name, thunk in now_forms(ft.datetime):
+            got = thunk()
+            if type(got) is not ft.datetime or got.tzinfo is None:
+                keeps["naive_utc"] = False
+                keeps.setdefault("first_bad", "%s() -> %r" % (name, got))
+        if bypass is None:
+            raise Unsupported("replace(tzinfo=None) could not be probed")
         # epoch numbers
         epoch_ok = True
         for n, want in ((0, (1970, 1, 1, 0, 0, 0, 0, 0)), (1.5, (1970, 1, 1, 0, 0, 1, 500000, 0)), (-1, (1969, 12, 31, 23, 59, 59, 0, 0)),
@@ -814,7 +963,7 @@ def observe_new():
     v = ft.datetime(2020, 1, 1)
     if v._pack() is not v:
         raise Unsupported("datetime._pack() does not return the value itself")
-    return passes, naive_rule, epoch_rule, text_rule, defines
+    return passes, naive_rule, epoch_rule, text_rule, defines, bypass
 
 
 def _cross(notes, what, ast_fn, same):
@@ -1022,7 +1171,7 @@ def gen_time():
             notes.append("AvroReader guard: taken from the source (observation at 0xFFFFFFFF not conclusive)")
         else:
             _cross(notes, "AvroReader.__iter__", avro_facts, lambda g: g == (abase, alogical, aepoch, aepoch_off, aguard, aunit))
-        passes, naive_rule, epoch_rule, text_rule, defines = observe_new()
+        passes, naive_rule, epoch_rule, text_rule, defines, bypass = observe_new()
         _cross(notes, "datetime.__new__", new_facts, lambda g: ("fold" in g[0]) == ("fold" in passes) and g[1] == naive_rule)
     finally:
         shutil.rmtree(tmp, ignore_errors=True)
@@ -1063,6 +1212,9 @@ def gen_time():
     out += "Definition gen_new_naive_rule : string := %s.\n" % cstr(naive_rule)
     out += "Definition gen_new_text_rule : string := %s.\n" % cstr(text_rule)
     out += "Definition gen_new_epoch_rule : string := %s.\n" % cstr(epoch_rule)
+    out += "(* probe: replace(tzinfo=None) on a value of the field type yields a NAIVE value of the field type (the interpreter\n"
+    out += "   builds the result without calling datetime.__new__) *)\n"
+    out += "Definition gen_replace_none_bypasses_constructor : bool := %s.\n" % cbool(bypass)
     out += "(* probe of cls.fromisoformat on this interpreter: an offset of less than one second is read as UTC *)\n"
     out += "Definition gen_fromiso_drops_subsecond_offset : bool := %s.\n" % cbool(quirk)
     out += "Definition gen_datetime_class_defines : list string := %s.\n\n" % clist([cstr(x) for x in defines])
